@@ -117,7 +117,12 @@ def io_result_checked(r, F):
             return None
         fl = flow.forward(F, f, [X], sink=sink)
         if fl.sinks:
-            return "propagated with ?"
+            # the `?` is reached on every path from the point where the Result was taken out of the tuple
+            src = [b.idx for b in f.blocks if not b.cleanup for st in b.stmts if st.k == "assign" and st.place.is_local() and st.place.local == X]
+            trys = [blk for (g, blk, d, term) in fl.sinks if g is f]
+            if src and trys and all(f.must_pass(s0, trys) for s0 in src):
+                return "propagated with ?"
+            return None
         if fl.returned:
             return "returned"
         moved = {X}
